@@ -250,9 +250,22 @@ def check(ctx):
         ok_names = [n for n in names if built[n]]
         if ok_names:
             axs, _ = axioms_audit(['TJ.Gen.Asm.%s' % n for n in ok_names], ['TJ.Gen.Asm.%s.correct' % n for n in ok_names])
+        # RV64I: the 64-bit lifting of the data path (TJ.Asm.RV64Lift.data_block) and its applicability to the regenerated programs (TJ.Asm.RV64Programs)
+        rv_thms = ['TJ.Asm.RV64.data_step', 'TJ.Asm.RV64.data_block', 'TJ.Asm.RV64.data_block_low', 'TJ.Asm.RV64.sub_block_lifts'] + \
+                  ['TJ.Asm.RV64.rv64i_%s_%s' % (v, k) for v in ('128', '192', '256') for k in ('shape', 'data')]
+        rv_axs = {}
+        if all(built.get('rv64i_%s' % v) for v in ('128', '192', '256')):
+            r2 = subprocess.run(['lake', 'build', 'TJ.Asm.RV64Programs'], cwd=LEAN, stdout=subprocess.PIPE, stderr=subprocess.STDOUT, text=True)
+            if r2.returncode == 0: rv_axs, _ = axioms_audit(['TJ.Asm.RV64Programs'], rv_thms)
+            rv_log = r2.stdout[-400:]
+        else: rv_log = 'an rv64i program no longer builds'
     finally:
         fcntl.flock(lock, fcntl.LOCK_UN); lock.close()
     proved = []; failed = []
+    bad = [t for t in rv_thms if not axioms_ok(rv_axs.get(t))]
+    if bad: ctx.broken_proofs.append('RV64I lifting (TJ.Asm.RV64Lift / RV64Programs: the regenerated rv64i programs use only W-form shifts below 32, xor, and as data instructions, and every such block lifts from the 32-bit projection to sign-extended 64-bit registers) no longer checks: %s %s' % (', '.join(bad[:4]), re.sub(r'\s+', ' ', rv_log)[-300:]))
+    else:
+        for t in rv_thms: ctx.proof['axioms'][t] = rv_axs.get(t)
     rng = random.Random('%s/asm' % ctx.seed)
     for n, t in progs.items():
         if isinstance(t, str):
